@@ -6,6 +6,7 @@ from ..patterns import (calls_to, arg_slice, cmp_sites, slice_field_bases, closu
 
 SEC = "winter_air::proof::security::"
 MIN = "core::cmp::min"
+MIN_METHOD = "core::cmp::Ord::min"      # `a.min(b)` on integers: the same function
 VALIDATE = "winter_verifier::AcceptableOptions::validate"
 PROOF = "winter_air::proof::Proof::"
 
@@ -19,7 +20,7 @@ def _min_with_param(f, op, param, through_cast=True):
         return None
     for x in _int_copy_chain(f, l):
         for d in f.defs(x):
-            if d["kind"] == "call" and is_call_to(d["term"], MIN):
+            if d["kind"] == "call" and is_call_to(d["term"], MIN, MIN_METHOD):
                 for a in d["term"]["a"]:
                     al = op_local(a)
                     if al is not None and param in _int_copy_chain(f, al):
@@ -98,7 +99,7 @@ def _min_any(f, op):
     chain = f.copy_chain(l)
     for x in chain:
         for d in f.defs(x):
-            if d["kind"] == "call" and is_call_to(d["term"], MIN):
+            if d["kind"] == "call" and is_call_to(d["term"], MIN, MIN_METHOD):
                 found = d["term"]
             elif d["kind"] == "assign" and d["rv"][0] in ("use", "cast") and \
                     op_local(d["rv"][1] if d["rv"][0] == "use" else d["rv"][2]) in chain and \
